@@ -94,6 +94,9 @@ def join_results(I, key, summ, actual_args):
         for ai, a in enumerate(actual_args):
             if all(_below(v, args[ai]) for _, args, v, _ in rs):
                 rel.append(("lt_arg", ai))
+            elif all(_below(v, args[ai]) or (isinstance(v, int) and not isinstance(v, bool) and v == 0) for _, args, v, _ in rs) and \
+                    all((isinstance(x, int) and x >= 0) or (is_sym(x) and x.ty in INT_TYPES and not x.ty.startswith("i")) for x in [args[ai] for _, args, _, _ in rs]):
+                rel.append(("le_arg", ai))      # result <= argument (the fallback 0 for an argument that may be 0)
         if rel:
             s.attrs["rel"] = rel
             s.attrs["rel_args"] = list(actual_args)
